@@ -285,8 +285,8 @@ Definition all_ids (sp : space) (s : subspace) : list N :=
   ids_loop (byte3_vals sp s) (byte12_vals sp s) (byte0_vals sp s).
 (* a window of the enumeration that can be evaluated without building the rest (used only by the
    correspondence run on the spaces that are too big to enumerate): the i3-th value of byte_3,
-   [n] values of byte_1_2 starting at index [lo], every value of byte_0.
-   Proofs/IdSpaceFacts.v (all_ids_block_slice) shows which slice of all_ids this is. *)
+   [n] values of byte_1_2 starting at index [lo], every value of byte_0.  Which slice of all_ids
+   this is (offset (i3 * |byte_1_2| + lo) * |byte_0|) is computed by the harness, not proved. *)
 Definition all_ids_block (sp : space) (s : subspace) (i3 lo n : nat) : list N :=
   ids_loop (firstn 1 (skipn i3 (byte3_vals sp s))) (firstn n (skipn lo (byte12_vals sp s))) (byte0_vals sp s).
 
